@@ -43,6 +43,9 @@ COLLECTIONS = (
     ("cr/cube/stripe/measure.py", "_BaseSecondOrderMeasure", "StripeBaseSecondOrderMeasure"),
     ("cr/cube/stripe/cubemeasure.py", "CubeMeasures", "StripeCubeMeasures"),
 )
+# classes read as PLAIN statement lists, dunder methods included: the caching rule every property of a
+# partition goes through (C18: a value is computed on first access and then cached - None never is)
+PLAIN = (("cr/cube/util.py", "lazyproperty", "lazyproperty"),)
 
 Unavailable = T.Unavailable
 _un = T._un
@@ -338,6 +341,68 @@ class _W(object):
         return False
 
 
+def read_member_plain(fn):
+    """A member as a plain statement list (no inlining of locals): used for util.lazyproperty, whose
+    `__get__` assigns inside an `if` that does not return.  Statement s is
+      x = e            -> WCall (WGlobal "__assign__") [x; e]          (x a name or a subscript / attribute)
+      return e         -> WCall (WGlobal "__return__") [e]
+      raise E(..)      -> WRaise "E"
+      if c: A else: B  -> WIf c (WList A) (WList B)
+      <expression>     -> itself
+    and the member is the WList of its statements."""
+    a = fn.args
+    if a.vararg or a.kwarg or a.kwonlyargs or a.posonlyargs:
+        _un("parameters other than plain positional ones")
+    params = [x.arg for x in a.args]
+    w = _W(params)
+    loc = set(params)
+
+    def target(t):
+        if isinstance(t, ast.Name):
+            loc.add(t.id)
+            return ("WVar", t.id)
+        return w.expr(t, {}, loc)
+
+    def stmt(st):
+        if isinstance(st, ast.Expr) and isinstance(st.value, ast.Constant) and isinstance(st.value.value, str):
+            return None
+        if isinstance(st, ast.Assign):
+            if len(st.targets) != 1:
+                _un("multiple assignment targets", st)
+            v = w.expr(st.value, {}, loc)
+            return ("WCall", ("WGlobal", "__assign__"), [target(st.targets[0]), v], [])
+        if isinstance(st, ast.Return):
+            return ("WCall", ("WGlobal", "__return__"),
+                    [("WNone",) if st.value is None else w.expr(st.value, {}, loc)], [])
+        if isinstance(st, ast.Raise):
+            e = st.exc
+            if isinstance(e, ast.Call) and isinstance(e.func, ast.Name):
+                return ("WRaise", e.func.id)
+            if isinstance(e, ast.Name):
+                return ("WRaise", e.id)
+            _un("raise of an unsupported shape", st)
+        if isinstance(st, ast.If):
+            return ("WIf", w.expr(st.test, {}, loc), ("WList", block(st.body)), ("WList", block(st.orelse)))
+        if isinstance(st, ast.Expr):
+            return w.expr(st.value, {}, loc)
+        _un("statement outside the plain sub-language", st)
+
+    def block(stmts):
+        out = []
+        for st in stmts:
+            t = stmt(st)
+            if t is not None:
+                out.append(t)
+        return out
+
+    term = ("WList", block(fn.body))
+    if a.defaults:
+        ds = [w.expr(d, {}, set()) for d in a.defaults]
+        names = params[len(params) - len(ds):]
+        term = ("WCall", ("WGlobal", "__defaults__"), [term], list(zip(names, ds)))
+    return term
+
+
 def read_member(fn):
     a = fn.args
     if a.vararg or a.kwarg or a.kwonlyargs or a.posonlyargs:
@@ -358,7 +423,8 @@ def members(repo_src):
     raises OSError / SyntaxError when a file cannot be read"""
     out = []
     texts = {}
-    plan = [(M_CUBEPART, c, c.lstrip("_")) for c in CLASSES] + list(COLLECTIONS)
+    plan = [(M_CUBEPART, c, c.lstrip("_")) for c in CLASSES] + list(COLLECTIONS) + list(PLAIN)
+    plain = set((r, c) for r, c, _i in PLAIN)
     for rel, cname, iname in plan:
         if rel not in texts:
             with open(os.path.join(repo_src, rel), encoding="utf-8") as f:
@@ -369,7 +435,12 @@ def members(repo_src):
             if isinstance(node, ast.ClassDef) and node.name == cname:
                 found = True
                 for fn in node.body:
-                    if isinstance(fn, ast.FunctionDef) and not (fn.name.startswith("__") and fn.name.endswith("__")):
+                    if not isinstance(fn, ast.FunctionDef):
+                        continue
+                    if (rel, cname) in plain:
+                        fn._plain = True
+                        out.append((iname, iname, fn))
+                    elif not (fn.name.startswith("__") and fn.name.endswith("__")):
                         out.append((cname if rel == M_CUBEPART else iname, iname, fn))
         if not found:
             raise OSError("class %s not found in %s" % (cname, rel))
@@ -394,10 +465,10 @@ def generate_all(repo_src, report):
         if dname != last:
             L.append("(* ---- class %s ---- *)" % dname)
             last = dname
-        idn = "wsrc_%s_%s" % (iname, fn.name)
+        idn = "wsrc_%s_%s" % (iname, fn.name.strip("_") if getattr(fn, "_plain", False) else fn.name)
         what = "%s.%s" % (dname, fn.name)
         try:
-            term = "Some (%s)" % p_w(read_member(fn))
+            term = "Some (%s)" % p_w(read_member_plain(fn) if getattr(fn, "_plain", False) else read_member(fn))
             report["methods_translated"].append("wiring:" + what)
         except Unavailable as ex:
             term = "None"
